@@ -15,6 +15,33 @@ fn die(msg: &str) -> ! {
 /// (rule text, data text) of a shape with `levels` nested levels
 fn build(shape: &str, levels: usize) -> (String, String) {
     let rep = |open: &str, leaf: &str, close: &str| -> String { format!("{}{}{}", open.repeat(levels), leaf, close.repeat(levels)) };
+    // WIDE shapes: nesting depth 2, but `levels` x 2000 operands in one list (an evaluator that recurses once per
+    // operand - an else-if ladder, a fold - needs stack proportional to the WIDTH)
+    if let Some(kind) = shape.strip_prefix("wide-") {
+        let n = levels * 2000;
+        let list = |item: &str, last: &str| -> String {
+            let mut t = String::with_capacity(n * (item.len() + 1) + last.len() + 2);
+            for _ in 0..n {
+                t.push_str(item);
+                t.push(',');
+            }
+            t.push_str(last);
+            t
+        };
+        let rule = match kind {
+            "if" => format!("{{\"if\":[{}]}}", list("false,0", "7")),
+            "if-vars" => format!("{{\"if\":[{}]}}", list("{\"var\":\"f\"},{\"var\":\"x\"}", "{\"var\":\"x\"}")),
+            "and" => format!("{{\"and\":[{}]}}", list("1", "2")),
+            "or" => format!("{{\"or\":[{}]}}", list("0", "2")),
+            "plus" => format!("{{\"+\":[{}]}}", list("1", "1")),
+            "cat" => format!("{{\"cat\":[{}]}}", list("\"a\"", "\"b\"")),
+            "merge" => format!("{{\"merge\":[{}]}}", list("[1]", "2")),
+            "missing" => format!("{{\"missing\":[{}]}}", list("\"a\"", "\"b\"")),
+            "max" => format!("{{\"max\":[{}]}}", list("1", "2")),
+            _ => die(&format!("unknown wide shape {}", shape)),
+        };
+        return (rule, "{\"f\":false,\"x\":1}".into());
+    }
     match shape {
         "not-unary" => (rep("{\"!\":", "true", "}"), "null".into()),
         "notnot-bracket" => (rep("{\"!!\":[", "1", "]}"), "null".into()),
@@ -63,6 +90,7 @@ pub const SHAPES: &[&str] = &[
     "not-unary", "notnot-bracket", "plus-bracket", "minus-unary", "cat", "if-cond", "if-branch", "tern-else", "and", "or", "map-coll", "map-expr", "filter-expr",
     "reduce-init", "reduce-expr", "all-lit", "some-pred", "none-coll", "var-default", "var-key", "missing", "merge", "eq-left", "lt-mid", "max", "in-needle", "substr", "log",
     "literal-array", "literal-object", "data-path", "data-whole", "data-tostring", "data-eq", "data-in", "data-lt", "data-plus",
+    "wide-if", "wide-if-vars", "wide-and", "wide-or", "wide-plus", "wide-cat", "wide-merge", "wide-missing", "wide-max",
 ];
 
 /// child: nest-child <shape> <levels> <stack bytes>  -> prints one line: parse-err | ok | err
